@@ -1733,11 +1733,18 @@ class Component(System):
         """
         subjacs_info = self._subjacs_info
         wrtset = set()
-        subjac_keys = self._get_approx_subjac_keys(use_relevance=use_relevance, initialize=True)
+        # take the methods from the declared partials and not only from the currently active
+        # schemes: a scheme is dropped below when none of its partials is relevant, and a later
+        # compute_totals with different of/wrt can make those partials relevant again.
         methods = list(self._approx_schemes)
+        for meta in subjacs_info.values():
+            method = meta.get('method')
+            if method in _supported_methods and method not in methods:
+                methods.append(method)
         self._approx_schemes = {}
         for method in methods:
             self._get_approx_scheme(method)
+        subjac_keys = self._get_approx_subjac_keys(use_relevance=use_relevance, initialize=True)
 
         # go through subjac keys in reverse and only add approx for the last of each wrt
         # (this prevents warnings that could confuse users)
